@@ -92,7 +92,7 @@ func (u *memoryManagementUnit) getFromMemory(addrs []int32) []int8 {
 func (u *memoryManagementUnit) fetchCacheLine(addr int32) []int8 {
 	memory := make([]int8, 0, l1DCacheLineSize)
 	for i := 0; i < l1DCacheLineSize; i++ {
-		if int(addr)+i >= len(u.ctx.Memory) {
+		if int(addr)+i < 0 || int(addr)+i >= len(u.ctx.Memory) {
 			memory = append(memory, 0)
 		} else {
 			memory = append(memory, u.ctx.Memory[int(addr)+i])
@@ -115,6 +115,9 @@ func (u *memoryManagementUnit) writeToL1D(addr int32, data []int8) {
 
 func (u *memoryManagementUnit) writeToMemory(addr int32, data []int8) {
 	for i, v := range data {
+		if int(addr)+i < 0 {
+			continue
+		}
 		if int(addr)+i >= len(u.ctx.Memory) {
 			return
 		}
